@@ -33,9 +33,11 @@ type Engine struct {
 	cellClos   map[*FT]map[string]*Closure
 	usedExternals map[string]string
 	ghostTypes map[string]types.Type
+	freshScope map[*ssa.BasicBlock]bool // while computing a loop's write set: the loop body
 	nilSafeRecv map[string]bool
 	srcCache   map[string][]string
 	cerrors    []string
+	cerrClauses []clauseError
 	safetyMode bool
 	safetyScope func(*ssa.Function) bool
 	implCache  map[string][]*ssa.Function
@@ -281,6 +283,14 @@ func (e *Engine) contractError(c *Clause, err error) {
 		}
 	}
 	e.cerrors = append(e.cerrors, msg)
+	e.cerrClauses = append(e.cerrClauses, clauseError{c, msg})
+}
+
+// clauseError: a contract clause that does not bind to the current source
+// (a name, statement or loop it refers to no longer exists).
+type clauseError struct {
+	c   *Clause
+	msg string
 }
 
 func (e *Engine) lines(file string) []string {
@@ -484,12 +494,13 @@ func (e *Engine) addrRootFresh(v ssa.Value) bool {
 		case *ssa.IndexAddr:
 			v = x.X
 		case *ssa.Alloc, *ssa.MakeMap, *ssa.MakeSlice:
-			return true
+			// inside a loop "fresh" means allocated by the loop body itself
+			return e.freshScope == nil || e.freshScope[x.(ssa.Instruction).Block()]
 		case *ssa.Slice:
 			v = x.X
 		case *ssa.Call:
 			if b, ok := x.Call.Value.(*ssa.Builtin); ok && b.Name() == "append" {
-				return true
+				return e.freshScope == nil || e.freshScope[x.Block()]
 			}
 			return false
 		default:
